@@ -207,10 +207,40 @@ def no_library_imports(prop):
                     log.append(str(name))
                 return real(name, globals, locals, fromlist, level)
             builtins.__import__ = watch
+            # the import machinery reached by name: importlib.import_module / importlib.__import__ always import;
+            # importlib.util.find_spec / pkgutil.find_loader / pkgutil.get_loader import the parent packages of a dotted name
+            import importlib
+            import importlib.util
+            import pkgutil
+            import sys as _sys
+            saved = []
+
+            def recorder(owner, attr, always):
+                orig = getattr(owner, attr, None)
+                if orig is None:
+                    return
+
+                def rec(name, *aa, **kk):
+                    caller = _sys._getframe(1).f_globals.get('__name__', '')
+                    if str(caller).split('.')[0] != 'yaml':
+                        return orig(name, *aa, **kk)
+                    if always or '.' in name:
+                        log.append('%s(%s)' % (attr, 'dotted name: parent packages get imported' if not always else 'name'))
+                        raise ImportError('import machinery reached during a confined load')
+                    return None
+                saved.append((owner, attr, orig))
+                setattr(owner, attr, rec)
+            recorder(importlib, 'import_module', True)
+            recorder(importlib, '__import__', True)
+            recorder(importlib.util, 'find_spec', False)
+            recorder(pkgutil, 'find_loader', False)
+            recorder(pkgutil, 'get_loader', False)
             try:
                 r = fn(*a, **k)
             finally:
                 builtins.__import__ = real
+                for owner, attr, orig in saved:
+                    setattr(owner, attr, orig)
             if log and (r == 'ok' or r.startswith('known:')):
                 return fail(prop, 'IMPORT code of the yaml package executed an import during the load: ' + ', '.join(sorted(set(log))))
             return r
